@@ -58,7 +58,7 @@ def check_locks(ctx: Ctx):
     if not buf_ops or not out_ops:
         ctx.undecided("R16.1", ev, ev.node, base, "no claim-file / output-file access observed in evaluate")
     # R16.2 atomic check-then-claim
-    reads = [e for e in buf_ops if e[0] == "read-rows"]
+    reads = [e for e in buf_ops if e[0] in ("read-rows", "raw-read")]
     writes = [e for e in buf_ops if e[0] == "append-row"]
     if reads and writes:
         rid = {x for x in reads[0][4] if x[0] == "inevalfilelock"}
